@@ -440,7 +440,12 @@ def organize(
             pass
         pass
     log.debug('organize() - setting queue')
-    dawgie.pl.schedule.que = sorted(jobs.values(), key=lambda i: i.get('level'))
+    # a job with nothing pending or executing (no targets known or given) must
+    # not sit in the queue: it would block its dependents and the waiters
+    dawgie.pl.schedule.que = sorted(
+        filter(lambda j: j.get('todo') or j.get('doing'), jobs.values()),
+        key=lambda i: i.get('level'),
+    )
     return
 
 
@@ -487,6 +492,9 @@ def purge(node: dawgie.pl.dag.Node, target: str, executing: bool = True):
         node.get('doing').remove(target)
     if target in node.get('todo', []):
         node.get('todo').remove(target)
+    if node in que and not (node.get('todo') or node.get('doing')):
+        que.remove(node)
+        node.set('status', State.waiting)
 
     for child in node:
         purge(child, target, executing)
